@@ -314,7 +314,12 @@ impl<'a> Sim<'a> {
                 sk = Some(target.clone());
                 content = gen::member_content(self.t, "invite");
                 let token = view.tpi.first().map(|x| x.0.clone()).unwrap_or_else(|| "tok0".into());
-                let mut signed = o(vec![("mxid", J::Str(if self.t.chance(4, 5) { target.clone() } else { actor.clone() })), ("token", J::Str(token))]);
+                let mx = match self.t.below(6) {
+                    0 => actor.clone(),
+                    1 => target.to_uppercase(),
+                    _ => target.clone(),
+                };
+                let mut signed = o(vec![("mxid", J::Str(mx)), ("token", J::Str(token))]);
                 if self.t.chance(4, 5) {
                     let _ = revent::sign_json(&mut signed, "id.example", &self.idserver);
                 } else if self.t.chance(1, 2) {
@@ -344,7 +349,7 @@ impl<'a> Sim<'a> {
             12 => {
                 ty = "m.room.redaction".into();
                 content = o(vec![("reason", J::s("r"))]);
-                let tid = if v <= 2 { format!("$m1:{}", revent::server_of_user(if self.t.chance(1, 2) { &actor } else { &target }).unwrap_or("x")) } else { "$someevent".to_string() };
+                let tid = if v <= 2 || self.t.chance(1, 3) { format!("$m1:{}", revent::server_of_user(if self.t.chance(1, 2) { &actor } else { &target }).unwrap_or("x")) } else { "$someevent".to_string() };
                 if v >= 11 {
                     content.set("redacts", J::Str(tid.clone()));
                 }
